@@ -83,6 +83,20 @@ func init() {
 		}
 		return bytesEq(sliceTerms(a[1]), e.sigRecs[si].msg)
 	}
+	// cosmos-sdk / cometbft secp256k1 public key address = RIPEMD160(SHA256(33-byte key))
+	pkAddr := func(e *Exec, fn *ssa.Function, a []Value) Value {
+		p := a[0].(PtrV)
+		if p.IsNil() {
+			panic(&GoPanic{Msg: "nil secp256k1.PubKey"})
+		}
+		st := e.peek(p).(*StructV)
+		key := sliceTerms(st.F[0])
+		if len(key) != 33 {
+			panic(&GoPanic{Msg: "length of pubkey is incorrect"})
+		}
+		return mkByteSlice(e.hashUF("hash160", key, 20))
+	}
+	I["(*github.com/cosmos/cosmos-sdk/crypto/keys/secp256k1.PubKey).Address"] = pkAddr
 	I[vrtKey("BLSKey")] = func(e *Exec, fn *ssa.Function, a []Value) Value {
 		return mkByteSlice(keyToken(e.concreteInt(a[1], "BLSKey index")))
 	}
